@@ -285,10 +285,25 @@ pub fn run(ctx: &mut Ctx) {
 
     // (d) just above and far above the limit: must be rejected, never wrapped
     let over: Vec<usize> = (65_536..=65_560).step_by(4).chain([65_564, 66_000, 70_000, 80_008, 131_072, 131_076, 196_608, 200_000]).collect();
-    let reps = ctx.n(3, 120);
+    let reps = ctx.n(6, 120);
     ctx.cases("over-limit", over.len() as u64 * reps, |ctx, case, rng| {
         let total = over[(case % over.len() as u64) as usize];
-        let m = assemble(rng, total, case % 2 == 1);
+        let mut m = assemble(rng, total, case % 2 == 1);
+        if total == 65_536 && case % 2 == 0 {
+            // directed: the LAST attribute's unpadded end is at 65,533..65,535 and only its
+            // padding crosses the 16-bit limit
+            let slack = 1 + (case / 2 % 3) as usize;
+            let head = 4 * rng.below(16_000) as usize;
+            let mut attrs = Vec::new();
+            if head > 0 {
+                attrs.push(LAttr::Data(rng.bytes(head - 4)));
+            }
+            let room = 65_536 - head - 4;
+            attrs.push(if rng.bool() { LAttr::Data(rng.bytes(room - slack)) } else { LAttr::MobilityTicket(rng.bytes(room - slack)) });
+            m.attrs = attrs;
+            m.key = None;
+            ctx.count("over-limit.padding-crosses-limit");
+        }
         let Some(lib) = lib_msg(ctx, &m) else { return };
         ctx.count(&format!("over-limit.total.{}", total));
         let buf_len = total + 20 + rng.below(5000) as usize;
